@@ -939,11 +939,17 @@ def parse_as_ast(
         return lambda_unwrap(_copy_of_tree(ast_source))
 
 
+# What a node of a stream's query chain can carry (see `object_stream.executor_attr_name`,
+# `EventDataset.__init__`, `ObjectStream.QMetaData`).
+_stream_node_attributes = ("_func_adl_executor", "_eds_object", "_q_metadata")
+
+
 def _copy_of_tree(node: ast.AST) -> ast.AST:
-    """A copy of a tree the user built. A node that carries something (the dataset, an executor,
-    query metadata) is the node of a query that was put into the tree - another stream's: it, and
-    what hangs on it, is kept as it is."""
-    if set(vars(node)) - set(node._fields) - set(node._attributes):
+    """A copy of a tree the user built. A node that carries the dataset, an executor or query
+    metadata is the node of a query that was put into the tree - another stream's: it, and
+    what hangs on it, is kept as it is. Any other node is copied, whatever else it carries (a
+    call whose defaults were filled in has `_old_ast`): the passes that follow edit in place."""
+    if any(hasattr(node, a) for a in _stream_node_attributes):
         return node
     new_node = copy.copy(node)
     for field, value in ast.iter_fields(node):
